@@ -5,6 +5,7 @@ marked "expect": "silent" - behaviour-preserving rewrites - must exit 0). A muta
 anchor text no longer occurs is reported as skipped. Nothing is ever written to
 /repo."""
 import json
+import re
 import os
 import shutil
 import subprocess
@@ -103,6 +104,31 @@ def main(tier="quick", only=None, jobs=4, summary=None, tag="selftest"):
     if only:
         muts = [m for m in muts if m["id"] in only or
                 any(pr in only for pr in (m["prop"] if isinstance(m["prop"], list) else [m["prop"]]))]
+    if only and len(only) == 1 and re.fullmatch(r"C\d\d", next(iter(only))):
+        # one property's own self-test (thorough tier of its check): each variant is judged by that property's check alone,
+        # and a refactoring written for another property is included only when it touches a file in which this property has
+        # obligations (evidence/<id>.json coverage.files); `./check selftest` runs the whole corpus against every listed check
+        pr = next(iter(only))
+        try:
+            with open(os.path.join(VERIF, "evidence", pr + ".json")) as fh:
+                files = set(json.load(fh)["coverage"].get("files") or [])
+        except (OSError, ValueError, KeyError):
+            files = set()
+        keep = []
+        for m in muts:
+            if isinstance(m["prop"], list) and len(m["prop"]) > 1:
+                own = m["id"].startswith("RF.%s-" % pr)
+                touched = set()
+                if m.get("patch") and files and not own:
+                    try:
+                        touched = set(re.findall(r"^\+\+\+ b/(\S+)", open(os.path.join(VERIF, m["patch"])).read(), re.M))
+                    except OSError:
+                        pass
+                if not own and files and not (touched & files):
+                    continue
+                m = dict(m, prop=[pr])
+            keep.append(m)
+        muts = keep
     if os.environ.get("GSA_SELFTEST_NO_PATCH"):      # development: text mutants only
         muts = [m for m in muts if "patch" not in m]
     base = os.environ.get("TMPDIR", "/tmp")
